@@ -15,9 +15,6 @@
 //! The harness owns only the projection: segments <-> bytes, Response -> (kind, code, headers, body),
 //! received bytes -> forwarded request.  Expectations come from TLC (exp/alt in replay, Trace_* otherwise).
 use hv::util::*;
-use humphrey::http::address::Address;
-use humphrey::http::headers::Headers;
-use humphrey::http::method::Method;
 use humphrey::http::proxy::proxy_request;
 use humphrey::http::{Request, Response};
 use humphrey_server::config::{BlacklistConfig, BlacklistMode, Config, LoadBalancerMode, LoggingConfig};
@@ -239,6 +236,7 @@ struct Case {
     route: String,
     connected: bool,
     blackhole: bool, // not connected: the handshake never completes (instead of being refused)
+    noread: bool,    // connected, but the target never reads the request
     events: Vec<Ev>,
     timeout_ms: u64, // for entry = core; the handler's is fixed
     ticks: u64,
@@ -254,22 +252,46 @@ struct Obs {
 
 static HANGS_CONFIRMED: AtomicUsize = AtomicUsize::new(0);
 
-fn build_request(req: &Value) -> Request {
-    let mut headers = Headers::new();
+/// The client request as bytes on the wire (the concretisation of the model's request record): start line, its
+/// headers, an incoming X-Forwarded-For built from the `xff` list, body followed by `pad` MiB of filler. A
+/// Content-Length is added when the record has a body but no such header (padded requests).
+fn request_bytes(req: &Value, variant: usize) -> Vec<u8> {
+    let q = req["q"].as_str().unwrap_or("");
+    let target = if q.is_empty() { req["uri"].as_str().unwrap_or("/").to_string() } else { format!("{}?{}", req["uri"].as_str().unwrap_or("/"), q) };
+    let mut out = format!("{} {} {}\r\n", req["m"].as_str().unwrap_or("GET"), target, req["ver"].as_str().unwrap_or("HTTP/1.1")).into_bytes();
+    let mut has_cl = false;
     for h in req["hdrs"].as_array().cloned().unwrap_or_default() {
         let s = h.as_str().unwrap_or("");
         let (n, v) = s.split_once(": ").unwrap_or((s, ""));
-        headers.add(n, v);
+        has_cl |= n == "content-length";
+        let n = if variant % 2 == 0 { title_case(n) } else { n.to_string() };
+        out.extend(format!("{}: {}\r\n", n, v).as_bytes());
+    }
+    let xff: Vec<String> = req["xff"].as_array().map(|a| a.iter().map(|x| x.as_str().unwrap_or("").to_string()).collect()).unwrap_or_default();
+    if !xff.is_empty() {
+        out.extend(format!("{}: {}\r\n", if variant % 2 == 0 { "X-Forwarded-For" } else { "x-forwarded-for" }, xff.join(", ")).as_bytes());
     }
     let body = req["body"].as_str().unwrap_or("-");
-    Request {
-        method: Method::from_name(req["m"].as_str().unwrap_or("GET")).unwrap_or(Method::Get),
-        uri: req["uri"].as_str().unwrap_or("/").to_string(),
-        query: req["q"].as_str().unwrap_or("").to_string(),
-        version: req["ver"].as_str().unwrap_or("HTTP/1.1").to_string(),
-        headers,
-        content: if body == "-" { None } else { Some(unhex(body)) },
-        address: Address { origin_addr: req["client"].as_str().unwrap_or("127.0.0.1").parse().unwrap(), proxies: vec![], port: 40000 },
+    let pad = req["pad"].as_u64().unwrap_or(0) as usize * 1024 * 1024;
+    let mut content = if body == "-" { vec![] } else { unhex(body) };
+    content.resize(content.len() + pad, b'x');
+    if body != "-" && !has_cl {
+        out.extend(format!("Content-Length: {}\r\n", content.len()).as_bytes());
+    }
+    out.extend(b"\r\n");
+    out.extend(&content);
+    out
+}
+
+/// The request is PARSED by the code under test from its bytes (Request::from_stream over a scripted reader with
+/// the peer's socket address), so `address` is whatever Address::from_headers makes of an incoming X-Forwarded-For.
+fn build_request(req: &Value) -> Request {
+    let bytes = request_bytes(req, req["uri"].as_str().map(|u| u.len()).unwrap_or(0));
+    let peer: std::net::IpAddr = req["peer"].as_str().unwrap_or("127.0.0.1").parse().expect("harness: peer address");
+    let mut cur = std::io::Cursor::new(bytes);
+    match Request::from_stream(&mut cur, SocketAddr::new(peer, 40000)) {
+        Ok(r) => r,
+        Err(e) => panic!("harness: the client request did not parse ({:?}): {}", e, req),
     }
 }
 
@@ -424,6 +446,17 @@ fn run_case(c: &Case, state: &Arc<AppState>) -> Obs {
     };
     let events = c.events.clone();
     let rel2 = release.clone();
+    let noread = c.noread;
+    if noread {
+        // a small receive buffer (inherited by the accepted socket) so that "larger than the buffers" is a few MiB
+        if let Some(l) = &listener {
+            use std::os::unix::io::AsRawFd;
+            let sz: libc::c_int = 64 * 1024;
+            unsafe {
+                libc::setsockopt(l.as_raw_fd(), libc::SOL_SOCKET, libc::SO_RCVBUF, &sz as *const _ as *const libc::c_void, std::mem::size_of::<libc::c_int>() as u32);
+            }
+        }
+    }
     let up = spawn_retry("upstream", move || -> Vec<u8> {
         let l = match listener {
             Some(l) => l,
@@ -445,7 +478,7 @@ fn run_case(c: &Case, state: &Arc<AppState>) -> Obs {
         let t0 = Instant::now();
         s.set_nonblocking(false).ok();
         s.set_nodelay(true).ok();
-        let seen = read_request(&mut s, t0 + tick / 2);
+        let seen = if noread { vec![] } else { read_request(&mut s, t0 + tick / 2) };
         let mut open = true;
         for e in events {
             match e {
@@ -524,7 +557,7 @@ fn run_case(c: &Case, state: &Arc<AppState>) -> Obs {
 }
 
 fn trace_record(id: &Value, c: &Case, segs: &[Seg], term: &str, o: &Obs) -> Value {
-    json!({"id": id, "entry": c.entry, "req": c.req, "route": c.route, "connected": c.connected,
+    json!({"id": id, "entry": c.entry, "req": c.req, "route": c.route, "connected": c.connected, "noread": c.noread,
            "segs": segs.iter().map(|s| s.to_json()).collect::<Vec<_>>(), "term": term,
            "got": o.got, "late": o.late, "seenok": o.seenok, "seen": o.seen, "elapsed_ms": o.elapsed_ms})
 }
@@ -600,6 +633,7 @@ fn replay_job(v: Value, timeout_ms: u64, ticks: u64) -> ReplayJob {
         route: v["route"].as_str().unwrap_or("/*").to_string(),
         connected: v["connected"].as_bool().unwrap_or(true),
         blackhole: v["kind"] == "blackhole",
+        noread: v["kind"] == "noread",
         events,
         timeout_ms,
         ticks,
@@ -611,7 +645,7 @@ fn replay_job(v: Value, timeout_ms: u64, ticks: u64) -> ReplayJob {
 fn judge(j: &ReplayJob, o: &Obs) -> Value {
     let v = &j.v;
     let ans_ok = ans_eq(&o.got, &v["exp"]);
-    let fwd_ok = !j.case.connected || (o.seenok && fwd_eq(&o.seen, &v["fwd"]));
+    let fwd_ok = !j.case.connected || j.case.noread || (o.seenok && fwd_eq(&o.seen, &v["fwd"]));
     let ok = ans_ok && fwd_ok && !o.late;
     let mut dev = Value::Null;
     if !ok && fwd_ok && (!o.late || o.got["kind"] == "hang") {
@@ -644,7 +678,7 @@ fn replay(timeout_ms: u64, ticks: u64, threads: usize) {
         while r["ok"] == false && r["devs"].is_null() && tries < 2 {
             tries += 1;
             let slow = Case { timeout_ms: if timed { j.case.timeout_ms * 3 } else { j.case.timeout_ms }, events: j.case.events.clone(), entry: j.case.entry.clone(),
-                              req: j.case.req.clone(), route: j.case.route.clone(), connected: j.case.connected, blackhole: j.case.blackhole, ticks: j.case.ticks };
+                              req: j.case.req.clone(), route: j.case.route.clone(), connected: j.case.connected, blackhole: j.case.blackhole, noread: j.case.noread, ticks: j.case.ticks };
             o = run_case(&slow, &st);
             r = judge(j, &o);
             r["retried"] = json!(tries);
@@ -772,7 +806,7 @@ struct CutJob {
 fn cuts(timeout_ms: u64, threads: usize, stall_mod: usize, nseeds: usize, nbig: usize) {
     let mut rng = Rng::from_env();
     let state = app_state();
-    let req = json!({"m": "GET", "uri": "/r/x", "q": "a=b", "ver": "HTTP/1.1", "hdrs": ["host: up.example"], "body": "-", "client": "127.0.0.1"});
+    let req = json!({"m": "GET", "uri": "/r/x", "q": "a=b", "ver": "HTTP/1.1", "hdrs": ["host: up.example"], "xff": ["198.51.100.4", "10.1.1.1"], "body": "-", "pad": 0, "peer": "127.0.0.1"});
     let mut jobs = vec![];
     for (segs, sid) in seeds(&mut rng, nseeds, nbig) {
         let variant = sid;
@@ -810,7 +844,7 @@ fn cuts(timeout_ms: u64, threads: usize, stall_mod: usize, nseeds: usize, nbig: 
                 let entry = if sid % 7 == 3 && term == "eof" { "handler" } else { "core" };
                 jobs.push(CutJob {
                     id: format!("s{}c{}{}", sid, cut, term),
-                    case: Case { entry: entry.into(), req: req.clone(), route: "/r*".into(), connected: true, blackhole: false, events, timeout_ms, ticks: 3 },
+                    case: Case { entry: entry.into(), req: req.clone(), route: "/r*".into(), connected: true, blackhole: false, noread: false, events, timeout_ms, ticks: 3 },
                     segs: tokenise(&segs, variant, cut),
                     term: term.into(),
                 });
@@ -907,7 +941,7 @@ fn lb_group_once(nt: usize, k: usize, calls: usize, mode: LoadBalancerMode, via_
                         std::thread::yield_now();
                     }
                     if via_handler {
-                        let req = build_request(&json!({"m": "GET", "uri": "/lb/x", "q": "", "ver": "HTTP/1.1", "hdrs": ["host: lb.example"], "body": "-", "client": "127.0.0.1"}));
+                        let req = build_request(&json!({"m": "GET", "uri": "/lb/x", "q": "", "ver": "HTTP/1.1", "hdrs": ["host: lb.example"], "xff": [], "body": "-", "pad": 0, "peer": "127.0.0.1"}));
                         let inv = SEQ.fetch_add(1, Ordering::SeqCst);
                         let r = std::panic::catch_unwind(std::panic::AssertUnwindSafe(|| proxy_handler(req, state.clone(), &lb, "/lb/*")));
                         let ret = SEQ.fetch_add(1, Ordering::SeqCst);
